@@ -228,6 +228,7 @@ def digest(r, pid):
     call, labs, problems = shellrun.model_call(r)
     outq, written = shellrun.impl_summary(r)
     return {'call': call, 'labs': labs, 'problems': problems, 'viol': viol, 'status': r.status, 'scenario': scenario_to_json(r.sc),
+            'content': shellrun.content_cases(r) if pid == 'C04' else [],
             'schedule': [c for c, _ in r.taken], 'outq': outq, 'written': written,
             'final': {k: r.final[k] for k in ('init_expected', 'close_expected', 'stop', 'sock_closed', 'jobs')}, 'exits': bool(r.exits),
             'nhand': len(r.hand), 'nhandio': len(r.handio), 'has_handler': r.sc.handler is not None,
@@ -349,6 +350,7 @@ def explore(ctx, res, pid):
                 res.disagreements.append(x)
     res.traces = len(digs)
     classify_tie(ctx, res, digs)
+    content_tie(ctx, res, digs)
     seen = set()
     uniq = []
     for v in res.oracle_violations:
@@ -404,6 +406,35 @@ def norm_class(c, wire_id):
             wf = b'T'
         return [c[0], wire_id, wf, known]
     return c
+
+
+def content_tie(ctx, res, digs):
+    """C04: the content of every reply produced under a concurrent schedule is the one Model/MetaHandlers.v predicts for THAT
+    request (its tokens, the outcomes its adapter calls had)"""
+    cases = [(d, c) for d in digs for c in d.get('content', [])]
+    for i in range(0, len(cases), 800):
+        part = cases[i:i + 800]
+        outs = ctx.model([c['call'] for _, c in part])
+        for (d, c), m in zip(part, outs):
+            res.evaluations += 1
+            res.count('content-under-schedule')
+            if not (isinstance(m, list) and m and m[0] == b'job'):
+                if m == [b'rejected']:
+                    want = sym('none')
+                else:
+                    res.disagreements.append({'case': {'scenario': d['scenario'], 'schedule': d['schedule'], 'request': c['line']},
+                                              'model': sx.dumps(m)[:300], 'impl': sx.dumps(c['actual'])[:300], 'relation': 'MetaHandlers.handle_tokens (driver)'})
+                    continue
+            else:
+                r_ = m[2]
+                if r_ == b'unmodelled':
+                    res.unmodelled += 1
+                    continue
+                want = r_ if isinstance(r_, list) else sym('none')      # handler / silent: no reply line
+            if want != c['actual']:
+                res.disagreements.append({'case': {'scenario': d['scenario'], 'schedule': d['schedule'], 'request': c['line']},
+                                          'model': sx.dumps(want)[:400], 'impl': sx.dumps(c['actual'])[:400],
+                                          'relation': 'reply content of request %s under this schedule = MetaHandlers.handle_tokens of its tokens and outcomes' % c['id']})
 
 
 def classify_tie(ctx, res, digs):
